@@ -1,11 +1,15 @@
 """C07: signatures are byte-exact RFC 8554 HSS signatures for the current counter."""
 from .common import *
 import rfc8554 as R
+import hashsigs
 
 RULE = ("all 6 hashes x parameter lists (1..8 levels, every W, H2/H5) x boundary/random counters x messages: the released signature bytes are compared with the "
         "Impl model and with an independently written hash-sigs/RFC 8554 signer (tools/rfc8554.py, Appendix-B parameters), and checked with the "
         "independently written RFC verifier; lengths against the RFC formula")
-ASSUMPTIONS = ["the per-leaf randomizer derivation (seed-derived, index 0xfffd) is taken from the property statement / hash-sigs",
+ASSUMPTIONS = ["for SHA-256/32 (heights >= 5) every released signature is additionally checked by the cisco hash-sigs tool shipped in the repository (tests/demo verify), and the bottom-level LMS "
+               "signature is compared byte for byte with the tool's own signature for the same key file (upper-level randomizers are derived from the child tree's seed in this library "
+               "and from the parent's in hash-sigs, an RFC-irrelevant difference, so upper levels are compared structurally)",
+               "the per-leaf randomizer derivation (seed-derived, index 0xfffd) is taken from the property statement / hash-sigs",
                "rows (n=24,W1), (n=16,W1), (n=16,W2) deviate from Appendix B (known finding): signatures over those rows are reported as KNOWN-FINDING"]
 
 BAD_ROWS = {(24, 1), (16, 1), (16, 2)}
@@ -35,6 +39,42 @@ def run(ctx):
         for c in rng.sample(cs, min(len(cs), 3 if ctx.tier == "quick" else 8)):
             msg = gen_msg(rng, ctx.tier)
             cases.append(Case(sign_line(k.H, k.blob(c), msg), "sign/L%d" % len(k.params), {"key": k, "c": c, "msg": msg}))
+    # the real hash-sigs tool as independent verifier / signer (SHA-256/32, heights >= 5)
+    if hashsigs.available():
+        hs = hashsigs.HashSigs()
+        try:
+            hcases = []
+            for ps in ([(3, 5)], [(4, 5), (2, 5)], [(1, 5), (3, 5)], [(2, 5), (3, 5), (4, 5)], [(3, 5), (4, 6)]) + (() if ctx.tier == "quick" else ([(3, 5)] * 4, [(4, 6), (3, 5)])):
+                ps = list(ps)
+                seed = rng.bytes_(32)
+                name, prv, pub, _ = hs.genkey(ps, seed, 0)
+                hts = heights_of(ps)
+                for cnt in rng.sample(boundary_counters(hts, rng, 1), 3):
+                    if cnt + 1 >= (1 << sum(hts)):
+                        continue
+                    msg = gen_msg(rng)
+                    hs.set_private_key(name, sk_blob("S32", ps, seed, cnt))
+                    ref = hs.sign(name, msg)
+                    hcases.append(Case(sign_line("S32", sk_blob("S32", ps, seed, cnt), msg), "sign/hash-sigs-tool",
+                                       {"ref": ref, "succ": hs.private_key(name), "pub": pub, "msg": msg}))
+            for c, a, b in ctx.both(hcases, None):
+                f = fields(a)
+                ref, succ, pub, msg = c.meta["ref"], c.meta["succ"], c.meta["pub"], c.meta["msg"]
+                sig = unhx(f.get("sig", "-"))
+                if not a.startswith("ok") or ref is None:
+                    ctx.fail("signing failed (library or reference tool)", [c.line], a[:100], "ok")
+                    continue
+                if not hs.verify(pub, msg, sig):
+                    ctx.fail("the cisco hash-sigs tool rejects a released signature", [c.line], "rejected", "Signature verified")
+                _, l1 = parse_hss_sig(32, sig)
+                _, l2 = parse_hss_sig(32, ref)
+                if len(sig) != len(ref) or sig[l1[-1]["start"]:] != ref[l2[-1]["start"]:] or [(x["q"], x["ots"], x["lms"], x["path"], x.get("child_pk")) for x in l1] != [(x["q"], x["ots"], x["lms"], x["path"], x.get("child_pk")) for x in l2]:
+                    ctx.fail("signature differs from the hash-sigs tool's signature for the same key file (leaf indices, type codes, paths, child keys, bottom-level signature bytes)",
+                             [c.line], sig.hex()[:80], ref.hex()[:80])
+                if f.get("cb") != succ.hex():
+                    ctx.fail("successor key differs from the key file hash-sigs writes after signing", [c.line], f.get("cb"), succ.hex())
+        finally:
+            hs.close()
     for c, a, b in ctx.both(cases, None):      # full bytes compared with the model
         if not a.startswith("ok"):
             continue
